@@ -393,7 +393,9 @@ class Complex(Object, complex):
         if isinstance(real, complex):
             # This is deprecated by Python 3.14's `complex`, so
             # extract the imaginary part before passing through.
-            real, imag = real.real, imag + real.imag
+            # (Adding a zero would lose the sign of a negative-zero
+            # imaginary part.)
+            real, imag = real.real, imag + real.imag if imag else real.imag
         return super().__new__(cls, real, imag)
 
 
